@@ -1287,6 +1287,123 @@ def beval(t: Term, atoms: Dict[Term, bool]):
     return None
 
 
+def simplify(t: Term, atoms: Dict[Term, bool], depth: int = 0) -> Term:
+    """Rebuild t bottom-up with the conditionals / boolean operators decided by `atoms` resolved, `X is None` folded for
+    constants, f-strings flattened (constant parts merged, empty parts dropped).  Objects are opaque."""
+    if depth > 60:
+        return t
+    k = t[0]
+    sm = lambda x: simplify(x, atoms, depth + 1)
+    if k in ("const", "param", "name", "obj", "lam", "idx", "unbound", "loopvar", "after"):
+        out = t
+    elif k == "ifexp":
+        c = sm(t[1])
+        v = beval(c, atoms)
+        if v is None:
+            out = ("ifexp", c, sm(t[2]), sm(t[3]))
+        else:
+            return sm(t[2] if v else t[3])
+    elif k == "bool":
+        vals = [sm(x) for x in t[2]]
+        keep = []
+        for x in vals:
+            v = beval(x, atoms)
+            if t[1] == "and":
+                if v is False or (v is not None and not v):
+                    return x if x[0] == "const" else const(False)
+                if v is None:
+                    keep.append(x)
+            else:
+                if v is not None and v:
+                    if not keep:
+                        return x
+                    keep.append(x)
+                    break
+                if v is None:
+                    keep.append(x)
+        if not keep:
+            return vals[-1]
+        out = keep[0] if len(keep) == 1 else ("bool", t[1], tuple(keep))
+    elif k == "cmp":
+        a, b = sm(t[2]), sm(t[3])
+        out = ("cmp", t[1], a, b)
+        if t[1] in ("Is", "IsNot") and a[0] == "const" and b[0] == "const":
+            same = a == b
+            return const(same if t[1] == "Is" else not same)
+        if t[1] in ("Is", "IsNot") and b == NONE and a[0] in ("fstr", "tuple"):
+            return const(t[1] == "IsNot")
+    elif k == "un":
+        a = sm(t[2])
+        out = negate(a) if t[1] == "Not" else ("un", t[1], a)
+    elif k == "call":
+        out = ("call", sm(t[1]), tuple(sm(x) for x in t[2]), tuple((kk, sm(v)) for kk, v in t[3]))
+    elif k == "fstr":
+        parts: List[Term] = []
+        for x in t[1]:
+            if x[0] == "fmt":
+                v = sm(x[1])
+                if v[0] == "const" and isinstance(v[2], str) and x[2] == -1 and x[3] == NONE:
+                    x = v
+                elif v[0] == "fstr" and x[2] == -1 and x[3] == NONE:
+                    for y in v[1]:
+                        parts.append(y)
+                    continue
+                else:
+                    x = ("fmt", v, x[2], x[3])
+            if x[0] == "const" and parts and parts[-1][0] == "const":
+                parts[-1] = const(str(parts[-1][2]) + str(x[2]))
+            elif x[0] == "const" and x[2] == "":
+                continue
+            else:
+                parts.append(x)
+        out = ("fstr", tuple(parts))
+        if len(parts) == 1 and parts[0][0] == "const":
+            out = parts[0]
+    elif k in ("tuple", "phi"):
+        out = (k, tuple(sm(x) for x in t[1]))
+    elif k == "attr":
+        out = ("attr", sm(t[1]), t[2])
+    elif k == "sub":
+        out = ("sub", sm(t[1]), sm(t[2]))
+    elif k == "bin":
+        out = ("bin", t[1], sm(t[2]), sm(t[3]))
+    elif k in ("elem", "key", "val"):
+        out = (k, sm(t[1]), t[2])
+    elif k == "first":
+        out = ("first", t[1], sm(t[2]), sm(t[3]))
+    else:
+        out = t
+    v = atoms[out] if (out[0] == "cmp" or (out[0] == "call" and out[1][0] == "attr" and out[1][2] in ("endswith", "startswith"))) and out in atoms else None
+    if v is not None:
+        return const(bool(v))
+    return out
+
+
+def substitute(t: Term, mapping: Dict[Term, Term]) -> Term:
+    """Replace every occurrence of the keys of `mapping` in t."""
+    if t in mapping:
+        return mapping[t]
+    k = t[0]
+    sb = lambda x: substitute(x, mapping)
+    if k in ("const", "param", "name", "obj", "lam", "idx", "unbound", "loopvar", "after"):
+        return t
+    if k == "call":
+        return ("call", sb(t[1]), tuple(sb(x) for x in t[2]), tuple((kk, sb(v)) for kk, v in t[3]))
+    if k in ("tuple", "fstr", "phi"):
+        return (k, tuple(sb(x) for x in t[1]))
+    if k == "bool":
+        return ("bool", t[1], tuple(sb(x) for x in t[2]))
+    if k == "fmt":
+        return ("fmt", sb(t[1]), t[2], sb(t[3]) if isinstance(t[3], tuple) else t[3])
+    if k in ("attr", "star", "dstar", "exc"):
+        return (k, sb(t[1])) + tuple(t[2:])
+    if k in ("elem", "key", "val"):
+        return (k, sb(t[1]), t[2])
+    if k == "first":
+        return ("first", t[1], sb(t[2]), sb(t[3]))
+    return (k,) + tuple(sb(x) if isinstance(x, tuple) and x and isinstance(x[0], str) else x for x in t[1:])
+
+
 def reduce_ifexp(t: Term, atoms: Dict[Term, bool]) -> Term:
     """Resolve the conditionals of `t` whose tests are decided by `atoms` (top-down)."""
     while t[0] == "ifexp":
